@@ -125,10 +125,18 @@ def c18_forced(tier: str, scenario: int, schedule: str, shared: str) -> bool:
   from vf.sched import driver
   name, programs, setup, check, kind = scenarios(tier)[scenario]
   sched = [int(x) for x in schedule.split(',') if x != '']
+  shared_set = set(shared.split('|'))
+
+  def abstract(final):
+    return {k: ('present' if str(t).startswith(('obj#', 'dict#')) else t)
+            for k, t in final.items() if k[0] in shared_set}
+  _, _, _, seq_final, _ = driver.run(programs, setup, 'solo')
   traces, results, errors, final, names = driver.run(programs, setup, 'forced', sched,
-                                                     list(range(len(programs))),
-                                                     set(shared.split('|')))
+                                                     list(range(len(programs))), shared_set)
   v = check(results, final)
+  if v is None and kind == 'standard' and abstract(final) != abstract(seq_final):
+    v = 'final shared state differs from the sequential one: %r vs %r' % (
+        sorted(abstract(final).items()), sorted(abstract(seq_final).items()))
   if v and os.environ.get('VERIF_EXPLAIN'):
     sys.stderr.write('FAIL: %s\n' % v)
   return v is None
